@@ -30,6 +30,12 @@ func NewRawHTTPResponder(writer io.Writer) *RawHTTPResponder {
 	}
 }
 
+// ForRequest names the request this responder answers, so that the response is framed for it:
+// the answer to a HEAD carries no body bytes, not even the terminating chunk of a length-less one.
+func (c *RawHTTPResponder) ForRequest(req *http.Request) {
+	c.response.Request = req
+}
+
 func (c *RawHTTPResponder) parseAndSetContentLength() error {
 	header := c.response.Header
 
